@@ -28,7 +28,9 @@ fn gen_stream(stream: &str, n: u64, seed: u64) {
     match stream {
         "cmp" => for _ in 0..n { let lim = |r: &mut rng::Rng| -> slac::Value { match r.below(9) { 0 => slac::Value::String("9223372036854775807".into()), 1 => slac::Value::String("-9223372036854775808".into()), 2 => slac::Value::Number(1e19), 3 => slac::Value::Number(1e30),
                 4 => slac::Value::Number(9223372036854775808.0), 5 => slac::Value::Number(-1e19), 6 => slac::Value::Number(-9223372036854775808.0), 7 => slac::Value::String("9007199254740993".into()), _ => slac::Value::Number(9007199254740992.0) } };
-            let (a, b) = if r.chance(1, 40) { (lim(&mut r), lim(&mut r)) } else { let a = gen::gen_val(&mut r, 2); let b = if r.chance(1, 8) { a.clone() } else { gen::gen_val(&mut r, 2) }; (a, b) };
+            let (a, b) = if r.chance(1, 40) { (lim(&mut r), lim(&mut r)) } else { let a = gen::gen_val(&mut r, 2);
+                // 1 in 8 the same value again, 1 in 8 the same value with every member replaced by a LOOSELY equal one (true / 1 / '1', 0 / -0 / false, 5 / '5'; NaN stays)
+                let b = match r.below(8) { 0 => a.clone(), 1 => gen::loosen_val(&mut r, &a), _ => gen::gen_val(&mut r, 2) }; (a, b) };
             writeln!(w, "cmp {} {}", show_in(&a), show_in(&b)).unwrap(); },
         "num" => for _ in 0..n { writeln!(w, "{}", numrun::gen_num_line(&mut r)).unwrap(); },
         "evaltable" => { let d = gen::table_env().show(); for i in 0..gen::table_len() { writeln!(w, "eval {} {}", d, show_expr(&gen::table_case(i).unwrap())).unwrap(); } }
